@@ -106,6 +106,11 @@ class AsyncInternalEnforcer(CoreEnforcer):
             raise ValueError("filtered policies are not supported by this adapter")
 
         await self.adapter.load_filtered_policy(self.model, filter)
+
+        # the appended rules take their place in the priority order (stable: equal priorities stay in arrival order)
+        self.model.sort_policies_by_subject_hierarchy()
+        self.model.sort_policies_by_priority()
+
         self.model.print_policy()
         if self.auto_build_role_links:
             self.build_role_links()
